@@ -253,6 +253,20 @@ CHECKS = {
         "bounds": {"quick": "every 7th punctuation pair, token depth 4", "thorough": "all ~8900 punctuation pairs per format, token depth 5"},
         "assumptions": [],
     },
+    "C08": {
+        "bin": "c08",
+        "quick": cfgs(["dflt", "rdxfmt"], features="catalogue"),
+        "thorough": cfgs(["dflt", "cmp", "fmt", "rdxfmt", "cmprdxfmt"], features="catalogue"),
+        "rule": "formats: STANDARD, 13 writer-flag formats (required signs, required / no exponent notation, no exponent without fraction, radix 2/3/16/36 "
+                "variants), every radix 2..36, 15 mixed-base formats, prebuilt language formats (quick: one per distinct writer-relevant flag vector; "
+                "thorough: all 147) x float values (binade borders and patterns stepped, extremes, decimal landmarks, +-0, +-inf, NaNs, every 3rd negated) "
+                "x agreeing writer/parser option pairs (decimal point x exponent character from sets valid for the radix, 4 special-string sets incl. None, "
+                "trim_floats, exponent breaks incl. -1/+1 and +-400/+-1100): the written bytes must be accepted in full by the complete parser of the same "
+                "format; bits equal for decimal and power-of-two radices, for zeros and infinities, NaN reads back as NaN; plus all 12 integer types in "
+                "every radix on boundary and sparse values; non-trivial = outputs parsed back",
+        "bounds": {"quick": "every 11th value; 2 points x 2 exponent characters", "thorough": "every 2nd value; 4 x 6 punctuation sets; all prebuilt formats"},
+        "assumptions": ["specials are written and expected back only when the option string is configured and the format permits specials; generic (non power-of-two, non decimal) radices are only required to be accepted"],
+    },
 }
 
 # properties not claimed (reason). Kept current by hand.
